@@ -265,6 +265,60 @@ def dep_change_job(arg):
     return rep
 
 
+def samename_job(arg):
+    """A pipeline whose call tree holds two functions of the same bare name in two accepted modules (pa_mod.g used by
+    pa_mod, pb_mod.g used through its module): restricted run, full run, edit of one of the two, full run - all in one
+    process. Signatures and values equal those of a process that never did the restricted run."""
+    stages, store_kind, first, idx = arg
+    rep = core.Report("C15")
+    rep.evaluations = 1
+    pkg = "c15s%d" % idx
+    ma, mb = ("pa_mod", "pb_mod") if first == "caller-sorts-first" else ("pz_mod", "pb_mod")
+
+    def files(ca, cb):
+        return {
+            pkg + "/__init__.py": "# pkg\n",
+            pkg + "/%s.py" % mb: "from vp import vlog\n\n\ndef g():\n    vlog.hit('%s.g')\n    return ('%s.g', %d)\n" % (mb, mb, cb),
+            pkg + "/%s.py" % ma: "import dds\nfrom vp import vlog\nfrom %s import %s\n\n\ndef g():\n    vlog.hit('%s.g')\n    return ('%s.g', %d)\n\n\ndef K():\n    vlog.hit('K')\n    return ('K', g(), %s.g())\n\n\n"
+                                 "def main():\n    return ('main', dds.keep('/c15s/out', K))\n" % (pkg, mb, ma, ma, ca, mb),
+        }
+
+    mods = [pkg + "." + mb, pkg + "." + ma]
+    ent = {"style": "eval", "module": pkg + "." + ma, "func": "main", "args_src": "()"}
+    full_steps = [{"write": files(1, 100), "how": "import", "modules": mods, "entry": ent}, {"write": files(2, 100), "how": "reload", "modules": mods, "entry": ent}, {"write": files(2, 200), "how": "reload", "modules": mods, "entry": ent}]
+    steps = [{"write": files(1, 100), "how": "import", "modules": mods, "entry": dict(ent, options={"dds_stages": stages})}] + [dict(st, how="reload" if i else "none") for i, st in enumerate(full_steps)]
+    case = {"samename": True, "stages": stages, "store": store_kind, "first": first, "idx": idx}
+    desc = "two functions named g in modules %s and %s; run restricted to %r, then full runs with edits of each g (one process, store %s)" % (ma, mb, stages, store_kind)
+    with core.Scratch("vp_c15s_") as td:
+        root = os.path.join(td, "code")
+        os.makedirs(root)
+        o = core.fork_call(run_segment, {"mode": "impl", "root": root, "accept": [pkg], "steps": steps, "store": {"kind": store_kind, "dir": os.path.join(td, "store")}}, timeout=300)
+        twin = core.fork_call(run_segment, {"mode": "impl", "root": os.path.join(td, "code2"), "accept": [pkg], "steps": full_steps, "store": {"kind": store_kind, "dir": os.path.join(td, "store2")}}, timeout=300)
+    if isinstance(o, core.JobFailed) or isinstance(twin, core.JobFailed):
+        rep.inconclusive.append("same-name worker failed: %r %r" % (o, twin))
+        return rep
+    for x in o["steps"] + twin["steps"]:
+        if "setup_error" in x:
+            rep.inconclusive.append("setup error: %s" % x["setup_error"][-300:])
+            return rep
+    wants = [("main", ("K", (ma + ".g", ca), (mb + ".g", cb))) for ca, cb in ((1, 100), (2, 100), (2, 200))]
+    for i, want in enumerate(wants):
+        a, t = o["steps"][i + 1], twin["steps"][i]
+        rep.count("followup_full_evaluations")
+        if t["result"][0] != "ok" or pickle.loads(t["result"][1]) != want:
+            rep.violate("%s: full run %d in a process without the restricted run returned %s" % (desc, i, t["result"][2][:100] if t["result"][0] == "ok" else t["result"][1:3]), case, mechanism="followup-wrong-value")
+            return rep
+        if a["result"][0] != "ok" or pickle.loads(a["result"][1]) != want:
+            rep.violate("%s: full run %d returned %s, plain execution gives %r" % (desc, i, a["result"][2][:100] if a["result"][0] == "ok" else a["result"][1:3], want), case, mechanism="followup-wrong-value")
+            return rep
+        rep.count("signature_maps_compared")
+        if not a["syncs"] or not t["syncs"] or dict(a["syncs"][-1]) != dict(t["syncs"][-1]):
+            rep.violate("%s: full run %d committed other signatures than the same run in a process that never did the restricted run" % (desc, i), case, mechanism="followup-signatures-differ")
+            return rep
+    rep.nontriv(("c15same", repr(stages), store_kind, first))
+    return rep
+
+
 def lazy_attr_job(arg):
     """An accepted module that provides a name lazily (module-level __getattr__, PEP 562): a dry run of a function that
     mentions that name runs no user code - the hook included."""
@@ -348,8 +402,11 @@ def run(tier, seed):
                         continue
                     djobs.append((stages, how, store_kind, len(djobs)))
     gjobs = [(stages, sk, gi) for gi, (stages, sk) in enumerate([(["analysis"], "local"), (["ANALYSIS", "STORE_INSPECT"], "memory"), (["analysis"], "local_lru"), ([], "local")])]
-    results = core.fork_map(lambda j: {"o": orphan_job, "c": case_job, "d": dep_change_job, "g": lazy_attr_job}[j[0]](j[1]), [("c", j) for j in jobs] + [("o", j) for j in ojobs] + [("d", j) for j in djobs] + [("g", j) for j in gjobs], timeout=900)
-    for j, r in zip(jobs + [None] * (len(ojobs) + len(djobs) + len(gjobs)), results):
+    sjobs = [(stages, sk, first, si * 2 + fi) for si, (stages, sk) in enumerate([(["analysis"], "local"), (["analysis", "store_inspect"], "memory"), (["analysis", "store_inspect", "eval", "store_commit"], "local_lru"), ([], "local")])
+             for fi, first in enumerate(("caller-sorts-first", "caller-sorts-last"))]
+    results = core.fork_map(lambda j: {"o": orphan_job, "c": case_job, "d": dep_change_job, "g": lazy_attr_job, "s": samename_job}[j[0]](j[1]),
+                            [("c", j) for j in jobs] + [("o", j) for j in ojobs] + [("d", j) for j in djobs] + [("g", j) for j in gjobs] + [("s", j) for j in sjobs], timeout=900)
+    for j, r in zip(jobs + [None] * (len(ojobs) + len(djobs) + len(gjobs) + len(sjobs)), results):
         if isinstance(r, core.JobFailed):
             rep.inconclusive.append("case: %r" % (r,))
             continue
@@ -368,6 +425,9 @@ def run(tier, seed):
 def replay(payload):
     rep = core.Report("C15")
     c = payload["case"]
+    if c.get("samename"):
+        rep.merge(samename_job((c["stages"], c["store"], c["first"], c["idx"])))
+        return rep
     if c.get("lazy_attr"):
         rep.merge(lazy_attr_job((c["stages"], c["store"], c["idx"])))
         return rep
